@@ -40,6 +40,13 @@ type subResult struct {
 
 var procStart = time.Now()
 
+var (
+	noInline   = flag.Bool("no-inline", false, "do not consult the helper-inlined view when a rule fails")
+	inlinePairs = flag.String("inline", "", "analyse the view in which these caller>callee pairs (comma separated full names) are expanded")
+	inlineAll   = flag.String("inline-all-to", "", "tool self-test: expand every expandable helper call everywhere and write the rewritten files below this directory (relative paths kept)")
+	dumpInline = flag.String("dump-inline", "", "write the helper-inlined files to this directory and print the view's violations (debugging)")
+)
+
 func main() {
 	prop := flag.String("prop", "", "property id (C01..C20)")
 	tier := flag.String("tier", "quick", "quick|thorough")
@@ -98,6 +105,33 @@ func main() {
 		}
 		if sv.Blind > 0 || sv.FalseAlarms > 0 {
 			os.Exit(2)
+		}
+		return
+	}
+	if *inlineAll != "" {
+		overlay := map[string][]byte{}
+		p, err := Load(*repo, parseConfig(*config))
+		total := 0
+		for round := 1; err == nil && round <= 3; round++ {
+			ov, st := InlinedOverlay(p, round, nil)
+			if st.Expanded == 0 {
+				break
+			}
+			total += st.Expanded
+			for k, v := range ov {
+				overlay[k] = v
+			}
+			p, err = LoadOverlay(*repo, parseConfig(*config), overlay)
+		}
+		for k, v := range overlay {
+			dst := filepath.Join(*inlineAll, strings.TrimPrefix(k, *repo))
+			os.MkdirAll(filepath.Dir(dst), 0o755)
+			os.WriteFile(dst, v, 0o644)
+		}
+		fmt.Printf("expanded %d call(s) in %d file(s); view loads: %v\n", total, len(overlay), err == nil)
+		if err != nil {
+			fmt.Println(err)
+			os.Exit(1)
 		}
 		return
 	}
@@ -215,7 +249,19 @@ func flagSet(name string) bool {
 
 // runOne loads the program in one configuration and runs the property's rules.
 func runOne(prop, tier, repo, verif string, cfg Config, f propFn) (r *Report, code int) {
-	p, err := Load(repo, cfg)
+	var p *Program
+	var err error
+	if *inlinePairs != "" {
+		// sub-run on a prescribed view: no search from here
+		*noInline = true
+		var n int
+		p, n, err = loadView(repo, cfg, parsePairs(*inlinePairs))
+		if err == nil && n == 0 {
+			err = fmt.Errorf("view expands nothing")
+		}
+	} else {
+		p, err = Load(repo, cfg)
+	}
 	if err != nil {
 		fmt.Fprintf(os.Stderr, "bchverif: %v\n", err)
 		fmt.Printf("%s: cannot analyse the current tree (config %s): %v\n", prop, cfg, err)
@@ -230,7 +276,23 @@ func runOne(prop, tier, repo, verif string, cfg Config, f propFn) (r *Report, co
 	}()
 	f(p, r)
 	r.Seal()
+	if r.newViolations() > 0 && !*noInline {
+		if r2 := runInlined(prop, tier, repo, verif, cfg, f, p, r); r2 != nil {
+			return r2, 0
+		}
+	}
 	return r, 0
+}
+
+// runInlined: second opinion on helper-inlined views (inline.go, inlineview.go).  Returns a report only when the rules
+// pass on a view that is equivalent to the program.
+func runInlined(prop, tier, repo, verif string, cfg Config, f propFn, p *Program, r *Report) (r2 *Report) {
+	defer func() {
+		if e := recover(); e != nil {
+			r2 = nil
+		}
+	}()
+	return searchInlinedView(prop, tier, repo, verif, cfg, f, p, r)
 }
 
 func runSub(prop, repo, verif, cfg string) subResult {
